@@ -67,11 +67,13 @@ func NewRateLimiter(permitsPerSecond int64, options ...Option) *RateLimiter {
 func (l *RateLimiter) Acquire(ctx context.Context, tokens int) (err error) {
 	now := time.Now().UnixNano()
 	last := atomic.LoadInt64(&l.next)
+	verifYield("rate.loaded")
 	permits := float64(now-last)/l.interval - float64(tokens)
 	if permits > l.maxPermits {
 		permits = l.maxPermits
 	}
 	atomic.StoreInt64(&l.next, now-int64(permits*l.interval))
+	verifYield("rate.stored")
 	if last <= now {
 		return
 	}
